@@ -7,11 +7,12 @@ from .. import sweep, tlc
 LEVEL = "model_checking"
 MANIFEST = dict(
     category="model_checking",
-    text="Bounds.tla states the samplers as compositions on exact rationals (exploration = Clip(a + sigma*s*n), target smoothing = Clip(a + Clip(sigma*s*n, -c*s, c*s)), tanh scaling at saturation points, CEM proposals with truncated noise and distance-to-bound variance cap); TLC checks that every composition stays inside [low, high] and that the applied smoothing noise is bounded by c*s over a lattice of bound configurations (symmetric, asymmetric, tiny, huge, per-dimension different) and refutes the wrong-order / wrong-range variants; TLC-generated vectors are replayed into sample_actions, sample_target_actions, DeterministicTanhPolicy, cem_sample / cem_update / optimize_cem with the key-determined noise obtained from jax.random with the same key. During recorded training runs of DDPG, TD3, TD3+LAP, TD7, MR.Q and PETS on environments with asymmetric per-dimension bounds, LoopTrace.tla checks every action the environment receives on float32 ordinals (ActionInBounds).",
+    text="Bounds.tla states the samplers as compositions on exact rationals (exploration = Clip(a + sigma*s*n), target smoothing = Clip(a + Clip(sigma*s*n, -c*s, c*s)), tanh scaling at saturation points, CEM proposals with truncated noise and distance-to-bound variance cap); TLC checks that every composition stays inside [low, high] and that the applied smoothing noise is bounded by c*s over a lattice of bound configurations (symmetric, asymmetric, tiny, huge, per-dimension different) and refutes the wrong-order / wrong-range variants; TLC-generated vectors are replayed into sample_actions, sample_target_actions, DeterministicTanhPolicy, cem_sample / cem_update / optimize_cem with the key-determined noise obtained from jax.random with the same key. During recorded training runs of DDPG, TD3, TD3+LAP, TD7, MR.Q and PETS on environments with asymmetric per-dimension bounds, LoopTrace.tla checks every action the environment receives on float32 ordinals (ActionInBounds); the scenarios' noise-like parameters are pairwise different and one scenario per routine runs with exploration noise 0, where every action received after the warm-up must equal the clipped action of the live policy at the observation the environment returned last (ExplorationNoiseScale).",
     note="tanh values themselves are not evaluated (saturation points and order only); noise equation only on interior points; C10 names DDPG/TD3/TD3+LAP/TD7/MR.Q/PETS - other routines' actions are not judged; trusted: ordinal coding, recording environment, TLC",
     technique="TLA+ spec + TLC on a dyadic lattice replayed into the real samplers; trace validation of recorded training runs on float32 ordinals",
 )
 C10_ROUTINES = ("ddpg", "td3", "td3_lap", "td7", "td7_ckpt", "mrq", "pets")
+NOISE_ROUTINES = ("ddpg", "td3", "td3_lap", "td7", "td7_ckpt", "mrq")  # exploration = policy action + scaled Gaussian noise
 
 
 def _fn_enabled():
@@ -28,7 +29,18 @@ def run(rep):
     if not mine or pol == 0:
         raise tlc.MachineryError("no recorded continuous-control run with policy-chosen actions (vacuous)")
     sweep.binding_canary_bounds(mine)
-    rep.extra["trace_part"] = {"routines": sorted({t["cfg"]["routine"] for t in mine}), "actions_checked": n, "policy_chosen_actions": pol}
+    # last clause, in runs: exploration noise level 0 (all other noise-like parameters non-zero and pairwise different)
+    zero = {}
+    for t in mine:
+        if t["cfg"].get("expl_noise8") == 0 and not t.get("error"):
+            ev = t["events"]
+            zero[t["cfg"]["routine"]] = zero.get(t["cfg"]["routine"], 0) + sum(1 for i, e in enumerate(ev) if e["ev"] == "step" and e.get("has_pol") and i and ev[i - 1]["ev"] == "policy")
+    missing = [r for r in NOISE_ROUTINES if not zero.get(r)]
+    if missing:
+        raise tlc.MachineryError(f"no policy-chosen action in a run with exploration noise 0 for {missing} (vacuous)")
+    sweep.binding_canary_noise(mine)
+    rep.extra["trace_part"] = {"routines": sorted({t["cfg"]["routine"] for t in mine}), "actions_checked": n, "policy_chosen_actions": pol,
+                               "zero_noise_actions_equal_to_live_policy": zero}
     if _fn_enabled():
         from . import c10_fn
 
